@@ -7,18 +7,23 @@ built from the noisy cdf model), at `Rat` by the `decide`d witness of C08-T5, an
 `2^i` panels).
 
     lo, hi = a - 6*o, b + 6*o ; atol = atol or 1e-6*(hi - lo) ; h = hi - lo
-    ys = 0.5*h*sum(g([lo, hi]))
+    ys = 0.5*h*sum(g([lo, hi]))                       g(x) = 1 - F(x)**n   resp.  (1 - F(x))**n  (minimize)
     for i in 1..30:  h *= 0.5 ; xs = lo + arange(1, 2**i, 2)*h ; ys_prev, ys = ys, 0.5*ys + h*sum(g(xs))
-                     err = max|ys - ys_prev| / 3 ;  if i > 3 and err < atol: break
+                     err = max|ys - ys_prev| / 3 ;  if i > 3 and err <= atol: break
     else: raise IntegrationError
-    return max(0., lo) + min(0., hi) + ys
+    return lo + ys
 
-Constants pinned by hand: `0.5`, `/3`, `i > 3`, 30 rounds, `1e-6`, `6`.
+This is the code after the two repairs of /repo (`fix:` commits 867c66b — the integrand used to be
+`1[x>0] − F(x)**n` with `max(0., lo) + min(0., hi)` added, finding F4 — and fd4085d — the stop test
+used to be the strict `err < atol`, finding F5).  The pre-repair integrand is kept as `gCur`/`valueCur`
+("legacy") because `Props/C08.navg_fix_conservative` relates the two.
+
+Constants pinned by hand: `0.5`, `/3`, `i > 3`, `≤`, 30 rounds, `1e-6`, `6`.
 -/
 namespace Opda.TrapLoop
 
 section
-variable {α : Type} [Add α] [Sub α] [Mul α] [Div α] [LT α] [DecidableLT α]
+variable {α : Type} [Add α] [Sub α] [Mul α] [Div α] [LT α] [DecidableLT α] [LE α] [DecidableLE α]
 
 /-- `acc + Σ_{t<r} g (lo + (2(j+t)+1)·h)`, left to right -/
 def oddSum (nat : Nat → α) (g : α → α) (lo h : α) : Nat → Nat → α → α
@@ -44,8 +49,8 @@ def absd (x y : α) : α := if x < y then y - x else x - y
 /-- maximum of a list of non-negative numbers -/
 def maxL (nat : Nat → α) (l : List α) : α := l.foldl (fun m x => if m < x then x else m) (nat 0)
 
-/-- the stop rule of the code: `i > 3 and err < atol` -/
-def stops (i : Nat) (err atol : α) : Bool := decide (3 < i) && decide (err < atol)
+/-- the stop rule of the code: `i > 3 and err <= atol` -/
+def stops (i : Nat) (err atol : α) : Bool := decide (3 < i) && decide (err ≤ atol)
 
 /-- several integrands (one per `n` of an array `ns`) refined in lock step, stopping on the maximum of
 their error estimates.  Returns `(i, values T_i, error estimates of rounds 1..i)` or `none` when the
@@ -69,7 +74,7 @@ def run (nat : Nat → α) (gs : List (α → α)) (lo hi atol : α) : Option (N
 /-- `1[x > 0]` -/
 def ind (nat : Nat → α) (x : α) : α := if nat 0 < x then nat 1 else nat 0
 
-/-- the integrand of the code: `1[x>0] − F(x)^n` (maximise) / `1[x>0] − (1 − (1−F(x))^n)` (minimise) -/
+/-- LEGACY (before 867c66b): `1[x>0] − F(x)^n` (maximise) / `1[x>0] − (1 − (1−F(x))^n)` (minimise) -/
 def gCur (nat : Nat → α) (pw : α → α → α) (F : α → α) (minimize : Bool) (nn : α) (x : α) : α :=
   if minimize then ind nat x - (nat 1 - pw (nat 1 - F x) nn) else ind nat x - pw (F x) nn
 
@@ -77,15 +82,16 @@ def gCur (nat : Nat → α) (pw : α → α → α) (F : α → α) (minimize : 
 def tail (nat : Nat → α) (lo hi : α) : α :=
   (if nat 0 < lo then lo else nat 0) + (if hi < nat 0 then hi else nat 0)
 
-/-- value the code returns when it stops after `i` refinements -/
+/-- LEGACY: value the code returned (before 867c66b) when it stopped after `i` refinements -/
 def valueCur (nat : Nat → α) (pw : α → α → α) (F : α → α) (minimize : Bool) (nn lo hi : α) (i : Nat) : α :=
   tail nat lo hi + (iter nat (gCur nat pw F minimize nn) lo hi i).2
 
-/-- the location-equivariant integrand (no `1[x>0]`): `E = lo + ∫_lo^hi (1 − F^n)` resp.
-`lo + ∫_lo^hi (1−F)^n` -/
+/-- **the integrand of the code**: `1 − F(x)^n` (maximise) / `(1 − F(x))^n` (minimise), so that
+`E = lo + ∫_lo^hi (1 − F^n)` resp. `lo + ∫_lo^hi (1−F)^n` -/
 def gRep (nat : Nat → α) (pw : α → α → α) (F : α → α) (minimize : Bool) (nn : α) (x : α) : α :=
   if minimize then pw (nat 1 - F x) nn else nat 1 - pw (F x) nn
 
+/-- value the code returns when it stops after `i` refinements: `lo + ys` -/
 def valueRep (nat : Nat → α) (pw : α → α → α) (F : α → α) (minimize : Bool) (nn lo hi : α) (i : Nat) : α :=
   lo + (iter nat (gRep nat pw F minimize nn) lo hi i).2
 
